@@ -137,6 +137,7 @@ func stalePathTo(fn *ssa.Function, e ssa.Instruction, sink func(ssa.Instruction)
 
 func runC08(c *Ctx) {
 	r := c.R
+	defer rulePeekLifetime(c, "R8.5", "C08: a frame held by the application or queued for forwarding keeps its own payload bytes")
 	r.NotDecided = append(r.NotDecided,
 		"byte identity of forwarded frames as an observed fact (R8.1 is its code-shape part)",
 		"decode equality at the next hop for all non-canonical encodings (value level; R8.2 is the necessary condition named by the statement's parenthesis)",
@@ -163,38 +164,7 @@ func runC08(c *Ctx) {
 		}
 		r.Check(bad == "", "R8.1", "Reader.Read frame stores", c.Pos(rf.fn.Pos()), "the parsed frame is touched only when its id is in the dialect", "Reader.Read modifies the frame at "+bad+" outside the `dialect knows this id` region: frames forwarded without a dialect are no longer byte-identical")
 	}
-	if w := c.Fn("pkg/frame", "Writer.Write"); w != nil {
-		r.Functions[fnQual(w)] = true
-		var guard *ssa.If
-		var notRaw *ssa.BasicBlock
-		for _, iff := range ifsIn(w) {
-			if _, fb, _, hit := succWhenFunc(iff, func(cs string) bool {
-				return strings.HasSuffix(cs, ".(*message.MessageRaw)?#1") && !strings.HasPrefix(cs, "!")
-			}); hit {
-				guard, notRaw = iff, fb
-			}
-		}
-		bad := ""
-		if guard == nil {
-			bad = "no `is *MessageRaw` test"
-		} else {
-			for _, in := range allInstrs(w) {
-				mut := false
-				switch x := in.(type) {
-				case *ssa.Store:
-					o := fieldStructName(x.Addr)
-					mut = o == "frame.V1Frame" || o == "frame.V2Frame" || o == "message.MessageRaw"
-				case *ssa.Call:
-					n := calleeName(&x.Call)
-					mut = isEncodeCall(n)
-				}
-				if mut && !edgeMustPass(w, edge{guard.Block(), notRaw}, in.Block()) {
-					bad = "frame mutated at " + c.Pos(in.Pos()) + " even when it already carries a raw message"
-				}
-			}
-		}
-		r.Check(bad == "", "R8.1", "frame.Writer.Write raw passthrough", c.Pos(w.Pos()), "a frame carrying a raw message is written untouched", bad)
-	}
+	ruleRawPassthrough(c, "R8.1")
 	allowed := map[string]map[string]bool{}
 	hdr := []string{"SequenceNumber", "SystemID", "ComponentID", "IncompatibilityFlag", "CompatibilityFlag", "SignatureLinkID", "SignatureTimestamp"}
 	base := map[string]bool{"V1Frame.unmarshal": true, "V2Frame.unmarshal": true, "Writer.writeFrameAndFill": true, "Writer.writeInner": true}
